@@ -94,6 +94,13 @@ def check_mstep_wrapper(P, R):
                 st = du.stmt_of(d)
                 rd = du.reaching(st, nm)
                 red = bool(rd) and all(x.how == "assign" and isinstance(x.value, ast.Call) and ("reduce" in src(x.value.func) or src(x.value.func) == "sum") for x in rd)
+                if not red and rd and not any(x.how == "param" for x in rd):
+                    # ... or it is the very object the M-step function received as its statistics (the fold itself is COVER.fold's business)
+                    for c_ in calls:
+                        for kw_ in c_.keywords:
+                            if kw_.arg == "statistics" and src(kw_.value) == nm:
+                                rd2 = du.reaching(du.stmt_of(c_), nm)
+                                red = {id(x) for x in rd2} == {id(x) for x in rd}
                 ok = red
         R.check(ok, "LOOP.L5", key, f"criterion = {src(second)[:60]}", "average log-likelihood of the reduced statistics", "the criterion is not total log-likelihood divided by the total sample count of the reduced statistics (un-averaged, or taken from one block)", r.lineno)
 
@@ -156,7 +163,7 @@ def run(P, R, tier):
     F = loopeng.analyse(P, R, FIT, "max_fitting_steps", "convergence_threshold", ("m_step",))
     if F is not None:
         n = loopeng.check_criterion_source(P, R, F, FIT, ("m_step",))
-        R.floor("LOOP.L4-mstep arms", n, 2)
+        R.floor("LOOP.L4-mstep arms", n, 1)
         # the initial previous criterion of the GMM is a finite literal: the step guard is mandatory (checked in L2-second)
     n, _ = dimrun.route(P, R, ["gmm.fit", "gmm.m_step", "gmm.ml", "gmm.e_step"], rules=["DIM.", "EXT."], where_prefix=["gmm:m_step", "gmm:ml_gmm_m_step", "gmm:e_step", "gmm:GMMMachine.fit"])
     R.floor("DIM/EXT obligations (GMM ML training)", n, 10)
@@ -179,7 +186,7 @@ def run(P, R, tier):
     # the model the next E-step sees is the one the M-step produced, on both execution paths (with their caches)
     from ..engines import own as _owneng, proto as _pp2
     _own = _owneng.Own(P)
-    nb = _pp2.check_branch(P, R, FIT)
-    ncb = _pp2.check_copyback(P, R, _own, FIT, ("m_step",))
+    nb = _pp2.check_branch(P, R, _pp2.site_func(P, FIT))
+    ncb = _pp2.check_copyback(P, R, _own, _pp2.site_func(P, FIT), ("m_step",))
     R.floor("BRANCH/COPYBACK (GMM fit)", nb + ncb, 2)
 
